@@ -216,7 +216,9 @@ def second_opinion(pid, mod, prog, rep, tier, config):
             continue
         # an ordinary violation: the same obligation (same key) is discharged on the second view, and the second view reports
         # no other violation of that rule in that function (site ordinals may shift between the views)
-        same = [x for x in b if x.key == o.key]
+        # (a hash-ordered loop names the offending effect in its key: the obligation is the loop)
+        base = lambda k: re.sub(r'\|effect\d+:.*$', '', k)
+        same = [x for x in b if base(x.key) == base(o.key)]
         if same and all(x.status != VIOLATION for x in same) and not any(x.status == VIOLATION and x.fn == o.fn for x in b):
             resolved.append(o)
         else:
